@@ -214,6 +214,8 @@ NAMED = {
     "nested burst, child removed, parent renamed, child re-created": [("mkdirp", "a", "b"), ("rmdir2", "a", "b"), ("rename", "a", "a2"), ("mkdir2", "a2", "b")],
     "nested burst, whole tree removed and re-created one by one": [("mkdirp", "a", "b"), ("rmdir2", "a", "b"), ("rmdir", "a"), ("mkdir", "a"), ("mkdir2", "a", "b")],
     "moved in, child removed and re-created": [("movein", "a"), ("rmdir2", "a", "sub"), ("mkdir2", "a", "sub")],
+    "moved out, another directory moved in under the same name and renamed at once": [("mkdir", "a"), ("moveout", "a"), ("movein", "a"), ("rename", "a", "b")],
+    "moved out with a child, another tree moved in under the same name, renamed at once, child renamed": [("mkdir", "a"), ("mkdir2", "a", "sub"), ("moveout", "a"), ("movein", "a"), ("rename", "a", "b"), ("rename", "b", "a2")],
     "moved in, renamed at once, old name re-used": [("movein", "a"), ("rename", "a", "b"), ("mkdir", "a"), ("rename", "a", "a2")],
 }
 
